@@ -2,7 +2,10 @@
 """Regenerates /verif/MANIFEST.json from props.json (claimed checks) + properties.jsonl."""
 import json, os, subprocess
 V = os.path.dirname(os.path.dirname(os.path.abspath(__file__)))
-props = json.load(open(os.path.join(V, "props.json")))
+import glob
+props = {}
+for f in sorted(glob.glob(os.path.join(V, "props.d", "*.json"))):
+    props.update(json.load(open(f)))
 allp = [json.loads(l) for l in open(os.path.join(V, "properties.jsonl")) if l.strip()]
 na_reasons = {}
 p = os.path.join(V, "not_applicable.json")
